@@ -58,6 +58,12 @@ CASES = [
     ('getVariable on the null group gives nil', '{ grpNull getVariable "a" } except__ { }; 7', '7'),
     ('setVariable on the null group is refused', '{ grpNull setVariable ["a", 1] } except__ { }; 7', '7'),
     ('group getVariable with bad parameters', 'g = createGroup west; { g getVariable [1, 2] } except__ { }; { g getVariable ["a"] } except__ { }; 7', '7'),
+    ('setPos moves the object', 'o = "C" createVehicle [0,0,0]; o setPos [1,2,3]; getPos o', '[1,2,3]'),
+    ('setPos with an empty position is refused', 'o = "C" createVehicle [0,0,0]; { o setPos [] } except__ { }; getPos o', '[0,0,0]'),
+    ('setPos with a short position is refused', 'o = "C" createVehicle [0,0,0]; { o setPos [1,2] } except__ { }; getPos o', '[0,0,0]'),
+    ('setPos with a position of strings is refused', 'o = "C" createVehicle [0,0,0]; { o setPos ["a","b","c"] } except__ { }; getPos o', '[0,0,0]'),
+    ('doMove on the null object is reported', 'objNull doMove [1,2,3]; 7', '7'),
+    ('setPos on the null object is reported', 'objNull setPos [1,2,3]; 7', '7'),
 ]
 def search(sqfvm):
     for (name, code, want) in CASES:
